@@ -46,6 +46,8 @@ SPECS = {
     "DenseTwoWayDHAdditiveGeneticVarianceMatrix": ("pybrops.model.vmat.DenseTwoWayDHAdditiveGeneticVarianceMatrix", ("taxa", "taxa", "trait"), "float"),
     "DenseThreeWayDHAdditiveGeneticVarianceMatrix": ("pybrops.model.vmat.DenseThreeWayDHAdditiveGeneticVarianceMatrix", ("taxa", "taxa", "taxa", "trait"), "float"),
     "DenseFourWayDHAdditiveGeneticVarianceMatrix": ("pybrops.model.vmat.DenseFourWayDHAdditiveGeneticVarianceMatrix", ("taxa", "taxa", "taxa", "taxa", "trait"), "float"),
+    "DenseSquareTraitMatrix": ("pybrops.core.mat.DenseSquareTraitMatrix", ("trait", "trait"), "float"),
+    "DenseSquareTaxaSquareTraitMatrix": ("pybrops.core.mat.DenseSquareTaxaSquareTraitMatrix", ("taxa", "taxa", "trait", "trait"), "float"),
 }
 GROUP_FIELDS = ("name", "stix", "spix", "len")
 
@@ -168,8 +170,10 @@ def expected_fields(name, ids, regime):
     return exp
 
 
-def compare_model(name, obj, ids, regime):
-    """Fields of ``obj`` that disagree with the entity model; 'mat' for the data cells."""
+def compare_model(name, obj, ids, regime, blocks=None):
+    """Fields of ``obj`` that disagree with the entity model; 'mat' for the data cells.
+    ``blocks=(axis, nold)``: block-diagonal join along a square axis - only the cells whose indices along ALL matrix axes of that
+    label axis are old (< nold) or ALL are new (>= nold) are defined by the entities; the cross blocks hold the fill value."""
     bad = []
     exp = expected_fields(name, ids, regime)
     for f, e in exp.items():
@@ -184,6 +188,13 @@ def compare_model(name, obj, ids, regime):
         e = LM.cells(SPECS[name][2], SPECS[name][1], ids)
         if d.shape != e.shape:
             bad.append("mat shape")
+        elif blocks is not None:
+            axs = axes_of(name)[blocks[0]]
+            grids = numpy.meshgrid(*[numpy.arange(n_) for n_ in d.shape], indexing="ij")
+            isnew = [grids[a_] >= blocks[1] for a_ in axs]
+            mask = numpy.logical_and.reduce(isnew) | numpy.logical_and.reduce([~x for x in isnew])
+            if not numpy.array_equal(d[mask], e[mask]):
+                bad.append("mat")
         elif d.dtype.kind == "f":
             # id-coded cells are exactly representable: compare exactly (a relative tolerance would hide a unit difference under
             # the 1e9/1e12 blocks of the three-/four-way matrices); breeding values pass through unscale() and get a tolerance
@@ -340,6 +351,8 @@ def step_(ctx, g, name, obj, ids, regime, nxt, hist, coords, sibs):
     ops = ["select", "delete", "reorder", "sort", "lexsort", "group", "ungroup"]
     if not square:
         ops += ["insert", "adjoin", "concat", "insert", "adjoin"]
+    else:
+        ops += ["adjoin"]        # block-diagonal join along a square axis (cross blocks = fill value); ends the history
     weights = {"group": 2.0, "sort": 1.5, "reorder": 1.5}
     p = numpy.array([weights.get(o, 1.0) for o in ops]); p /= p.sum()
     op = str(g.choice(ops, p=p))
@@ -363,6 +376,23 @@ def step_(ctx, g, name, obj, ids, regime, nxt, hist, coords, sibs):
     def rawkw(o):
         return {f: getattr(o, f) for f in regime.labels(axis, [0]).keys()}
 
+    def mislabel(o, k):
+        """Copy of operand ``o`` whose own labels along ``axis`` are those of other entities: explicit label arguments are
+        documented to overwrite the fields of a matrix operand."""
+        o2 = copy.deepcopy(o)
+        for f, v in regime.labels(axis, newids(k)).items():
+            if v is not None and getattr(o2, f, None) is not None:
+                setattr(o2, f, v)
+        return o2
+
+    if op in ("sort", "group", "lexsort") and n > 1 and g.random() < 0.3:
+        # entities listed group by group / chromosome by chromosome already (first default key non-decreasing) while the
+        # secondary key is not in order: the operation still has to order within the runs
+        order = sorted(range(n), key=lambda i_: regime.sortkey(axis, cur[i_])[0])
+        if [cur[i_] for i_ in order] != cur:
+            ids = dict(ids); ids[axis] = [cur[i_] for i_ in order]; cur = list(ids[axis])
+            obj = build(name, ids, regime); del sibs[:]
+            hist.append("rebuilt with the first default sort key of the %s axis already in order" % axis)
     if g.random() < 0.06:
         return reject_step(ctx, g, name, cls, obj, ids, regime, axis, axmap[axis], other, rawkw, hist, coords, icls, detail)
     operands = []
@@ -403,8 +433,13 @@ def step_(ctx, g, name, obj, ids, regime, nxt, hist, coords, sibs):
         omit = raw and axis in ("taxa", "vrnt") and g.random() < 0.3
         if omit:   # name argument left out: the new entities get the documented None placeholder; the history ends here
             regime.unnamed[axis].update(nw); new = LM.insert_ids(cur, pos, nw); form += ", names omitted"
+        override = (not raw) and name != "DenseBreedingValueMatrix" and g.random() < 0.3
+        if override:
+            operands = [oth, mislabel(oth, k)]; form += ", explicit labels over a differently labelled matrix operand"
 
         def val(ops_):
+            if override:
+                return ops_[1], rawkw(ops_[0])
             return (ops_[0].mat, {a_: b_ for a_, b_ in rawkw(ops_[0]).items() if not (omit and a_ == LM.PRIMARY[axis])}) if raw else (ops_[0], {})
         variants = [("insert" + S, "insert" + S, False, lambda o, q: getattr(o, "insert" + S)(pos, val(q)[0], **val(q)[1])),
                     ("insert(axis)", "insert", False, lambda o, q: o.insert(pos, val(q)[0], axis=ax, **val(q)[1])),
@@ -419,8 +454,15 @@ def step_(ctx, g, name, obj, ids, regime, nxt, hist, coords, sibs):
         omit = raw and axis in ("taxa", "vrnt") and g.random() < 0.3
         if omit:
             regime.unnamed[axis].update(nw); form += ", names omitted"
+        override = (not raw) and name != "DenseBreedingValueMatrix" and g.random() < 0.3
+        if override:
+            operands = [oth, mislabel(oth, k)]; form += ", explicit labels over a differently labelled matrix operand"
+        if square:
+            form += ", block-diagonal join along a square axis"
 
         def val(ops_):
+            if override:
+                return ops_[1], rawkw(ops_[0])
             return (ops_[0].mat, {a_: b_ for a_, b_ in rawkw(ops_[0]).items() if not (omit and a_ == LM.PRIMARY[axis])}) if raw else (ops_[0], {})
         variants = [("adjoin" + S, "adjoin" + S, False, lambda o, q: getattr(o, "adjoin" + S)(val(q)[0], **val(q)[1])),
                     ("adjoin(axis)", "adjoin", False, lambda o, q: o.adjoin(val(q)[0], axis=ax, **val(q)[1])),
@@ -541,7 +583,8 @@ def step_(ctx, g, name, obj, ids, regime, nxt, hist, coords, sibs):
         if new is None:
             return build(name, ids, regime), ids, "resync"
     ids2 = dict(ids); ids2[axis] = new
-    bad = compare_model(name, res, ids2, regime)
+    sqjoin = (axis, n) if (square and op == "adjoin") else None
+    bad = compare_model(name, res, ids2, regime, blocks=sqjoin)
     if bad and name == BV and axis == "trait" and bv_scale_stale(res, ids2, regime):
         # all labels and the stored values are right, only location/scale were not carried along
         ctx.check("C03.model", False, BV_TRAIT_SITE, BV_TRAIT_REL, icls,
@@ -562,6 +605,10 @@ def step_(ctx, g, name, obj, ids, regime, nxt, hist, coords, sibs):
         return build(name, ids2, regime), ids2, "resync"
     ctx.check("C03.model", not bad, site, "labels and cells equal those of the expected entity sequence", icls_op,
               what="%s (%s): fields %s differ from the entity model" % (site, name, bad), witness=dict(w0, fields=bad, expected_ids=new), coords=coords)
+    if sqjoin is not None:
+        check_groups(ctx, name, res, site, icls, coords, list(hist))
+        ctx.sumnote("block-diagonal joins along a square axis")
+        return res, ids2, "final"       # the cross blocks hold the fill value: the entity model ends here
     dec = check_intrinsic(ctx, name, res, regime, site, icls_op, coords, list(hist))
     gok = check_groups(ctx, name, res, site, icls, coords, list(hist))
     if not gok or bad or (dec is not None and dec != {a: list(v) for a, v in ids2.items()}):
@@ -678,6 +725,16 @@ def permutation_check(ctx, name, before_obj, after_obj, ids, regime, axis, keys,
             gl = numpy.asarray(grp).tolist()
             ctx.check("C03.model", gl == sorted(gl), site, "default sort/group leaves group labels non-decreasing", icls,
                       witness=dict(w0, group_labels=gl), coords=coords)
+    if keys is None:
+        # documented default keys (taxa: group then name; variants: chromosome then physical position; traits: name): the whole
+        # key must come out non-decreasing, not only its first component
+        try:
+            ks = [regime.sortkey(axis, i_) for i_ in new]
+            ordered = all(ks[j_] <= ks[j_ + 1] for j_ in range(len(ks) - 1))
+        except TypeError:
+            ordered = True       # keys of mixed type (None names) cannot be compared by the library either
+        ctx.check("C03.model", ordered, site, "default sort/group orders by the documented default keys (all components)", icls,
+                  witness=dict(w0, keys_after=[list(k_) for k_ in ks]), coords=coords)
     return new
 
 
@@ -807,6 +864,8 @@ def one_history(ctx, c):
             ctx.sumnote("resynchronisations")
         if any(regime.unnamed[a] for a in regime.unnamed):
             ctx.sumnote("joins of raw arrays with the name argument omitted")
+            break
+        if note == "final":
             break
         if max(len(v) for v in ids.values()) > 14:
             break
